@@ -53,6 +53,7 @@ type GenOpts struct {
 	CloseProviderInRun int // per-mille: a client closes the provider during the run
 
 	// faults
+	PBuildCtx     int    // per-mille: Build runs as BuildWithContext on a cancellable context that is never cancelled
 	PBuildCancel  int    // per-mille: Build runs on a context that is cancelled when the k-th constructor invocation is entered
 	FaultBudget   [4]int // weights for 0..3 faults
 	WFault        [4]int // weights by fault kind
@@ -678,6 +679,16 @@ func (g *gen) genPrograms(m *Model) [][]Op {
 					op.Kind = OpCancel
 					progs[ti] = append(progs[ti], op)
 					continue
+				case 3:
+					// ... or close / cancel one of h1's children: a descendant in the middle of its own
+					// disposal at the moment client 0 closes the parent
+					op.HSel = 2 + g.n(StOps, 2)
+					op.Kind = OpClose
+					if g.p(StOps, 300) {
+						op.Kind = OpCancel
+					}
+					progs[ti] = append(progs[ti], op)
+					continue
 				}
 			}
 			switch k {
@@ -752,7 +763,9 @@ func (g *gen) genFaults(c *Config) []*Fault {
 		}
 		fs = append(fs, f)
 	}
-	if g.t.Override == nil && g.p(StFault, o.PBuildCancel) {
+	if g.t.Override == nil && g.p(StFault, o.PBuildCtx) {
+		fs = append(fs, &Fault{Kind: FBuildCancel, Reg: -1, N: buildCtxOnly, Err: &sentinelErr{Site: "build-context"}})
+	} else if g.t.Override == nil && g.p(StFault, o.PBuildCancel) {
 		f := &Fault{Kind: FBuildCancel, Reg: -1, N: g.n(StFault, 6)}
 		f.Err = &sentinelErr{Site: fmt.Sprintf("build-cancel@ctor#%d", f.N)}
 		fs = append(fs, f)
